@@ -70,6 +70,8 @@ def est_horizon(spec: Dict[str, Any]) -> float:
             for s in b.get("dur", []):
                 if isinstance(s, (int, float)):
                     tot += s
+                elif isinstance(s, str) and s.startswith("w"):
+                    tot += float(s[1:])
         tot += 0.5  # hook / ack / backend latencies
     return last + tot + 0.4 * (len(spec.get("msgs", [])) + 2) + 20.0
 
@@ -142,8 +144,25 @@ def tie_free(trace: List[Dict[str, Any]], gap: float) -> bool:
 class WorkerCheck(Check):
     """Common: one case = one spec (or a sweep of derived specs)."""
 
+    # Receiver parameters this property is about: the public entry points that set them (the `taskiq worker`
+    # command line and taskiq.api.run_receiver_task) are probed once per run (mon/wiring.py)
+    wiring_fields: List[str] = []
+
     def judge(self, rr: RunResult, spec: Dict[str, Any], cr: CaseResult) -> None:
         raise NotImplementedError
+
+    def shard_epilogue(self, tier: str, shard: int, rng: random.Random) -> Dict[str, int]:
+        if not self.wiring_fields:
+            return {}
+        from mon import wiring
+
+        return wiring.epilogue(tier, shard, rng, self.wiring_fields)
+
+    def post_merge(self, merged: Dict[str, Any]) -> None:
+        if self.wiring_fields:
+            from mon import wiring
+
+            wiring.merge_violation(merged, "the worker is not built with the configured " + "/".join(self.wiring_fields))
 
     def nontrivial(self, rr: RunResult, spec: Dict[str, Any]) -> bool:
         return True
@@ -264,6 +283,13 @@ def gen_c01_spec(rng: random.Random, maxn: int = 40) -> Dict[str, Any]:
                     m["beh"]["dur"] = []
     if rng.random() < 0.15:
         add_same_id_messages(rng, msgs, 0.3)
+    if rng.random() < 0.06:
+        return gen_c01_stream_fault_spec(rng)
+    if rng.random() < 0.15:
+        # middlewares in front of the execution, in every supported hook style
+        spec["mws"] = [{"pre_execute": {"async": rng.random() < 0.5, "style": rng.choice([None, "awaitable", "task"]),
+                                        "lat": rng.choice([0, "y", 0.01]), "returns_msg": True}}
+                       for _ in range(rng.randint(1, 2))]
     mode = rng.choice(["stop", "stop", "end", "end", "none"])
     if spec["cfg"].get("N"):
         mode = rng.choice(["stop", "end", "none", "none"])
@@ -273,6 +299,24 @@ def gen_c01_spec(rng: random.Random, maxn: int = 40) -> Dict[str, Any]:
         spec["end_stream"] = True
     spec["horizon"] = est_horizon(spec)
     return spec
+
+
+def gen_c01_stream_fault_spec(rng: random.Random) -> Dict[str, Any]:
+    """A programmatic worker (taskiq.api.run_receiver_task) whose broker stream breaks a few times while the worker
+    is idle; run_receiver_task restarts listening, and messages that arrive afterwards are processed as ever."""
+    A = rng.choice([1, 1, 2, 3])
+    msgs: List[Dict[str, Any]] = []
+    for i in range(rng.randint(0, 3)):
+        msgs.append({"at": round(0.05 * i, 3), "kind": "valid", "task": "t_async", "ackable": rng.random() < 0.5,
+                     "beh": {"dur": [rng.choice([0.0, 0.01, 0.05])] if rng.random() < 0.7 else [], "out": rng.choice(["ok", "raise:ValueError"]), "value": i}})
+    nf = rng.randint(1, A + 2)
+    faults = [round(1.0 + 0.5 * k, 3) for k in range(nf)]
+    t = faults[-1] + 1.0
+    for i in range(rng.randint(2, 6)):
+        t += rng.choice([0.0, 0.01, 0.4])
+        msgs.append({"at": round(t, 3), "kind": "valid", "task": rng.choice(["t_async", "t_sync"]), "ackable": rng.random() < 0.5,
+                     "beh": {"dur": [], "out": "ok", "value": 100 + i}})
+    return {"cfg": {"A": A, "P": rng.choice([0, 0, 1, 2])}, "via": "api", "msgs": msgs, "stream_faults": faults, "horizon": round(t + 8.0, 3)}
 
 
 class C01(WorkerCheck):
@@ -285,12 +329,15 @@ class C01(WorkerCheck):
             "nor deadlocks. A third of the scenarios add: a task registered while the worker runs (messages whose "
             "processing began after the registration must run), tasks with different dependency parameters and "
             "strict signatures under dependency_overrides, a task that only exists in the shared registry, and "
-            "shared tasks shadowed by own tasks of the same name (the own function must be the one invoked). "
+            "shared tasks shadowed by own tasks of the same name (the own function must be the one invoked); 6 % run "
+            "through taskiq.api.run_receiver_task with the broker stream breaking 1..A+2 times while idle (messages "
+            "arriving after the restarts must run). "
             "Non-trivial: >=2 messages taken and >=1 executed; distinct = distinct sequences of "
             "(event kind, delivery) in the trace(s).")
     floors = {"events.yield": 200, "events.task_start": 100, "counters.stop_instants": 20,
               "counters.executions_of_late_registered_task": 50, "counters.executions_of_shared_only_task": 50,
-              "counters.executions_with_dependencies_overridden": 100, "counters.executions_of_own_task_shadowed_by_shared": 100}
+              "counters.executions_with_dependencies_overridden": 100, "counters.executions_of_own_task_shadowed_by_shared": 100,
+              "counters.executions_after_stream_restart": 100}
     quick_cases = 3000
     thorough_cases = 60000
     thorough_time = 420.0
@@ -329,6 +376,8 @@ class C01(WorkerCheck):
                     cr.counters["executions_with_dependencies" + ("_overridden" if spec.get("overrides") else "")] += 1
                 elif t in (spec.get("shadow_shared") or []):
                     cr.counters["executions_of_own_task_shadowed_by_shared"] += 1
+                if spec.get("stream_faults"):
+                    cr.counters["executions_after_stream_restart"] += 1 if e["t"] > spec["stream_faults"][-1] else 0
 
     def shard_epilogue(self, tier: str, shard: int, rng: random.Random) -> Dict[str, int]:
         """Fidelity cross-check of the virtual-time loop (thorough tier, two shards): short tie-free
@@ -439,6 +488,7 @@ def gen_c02_spec(rng: random.Random) -> Dict[str, Any]:
 
 class C02(WorkerCheck):
     pid = "C02"
+    wiring_fields = ["ack_type"]
     level = "fault_enumeration"
     rule = ("Scenario = 1-8 overlapping ackable messages x ack type x sync/async ack callable (with latency) x "
             "outcome (return, raise incl. BaseException, timeout, no-result, backend failure) on the real "
@@ -447,7 +497,7 @@ class C02(WorkerCheck):
             "(equivalently each ack event is checked against the state accumulated before it); plus exactly one "
             "ack by the end of processing. Non-trivial: >=2 messages whose processing overlapped in time; distinct "
             "= distinct (event kind, delivery) sequences.")
-    floors = {"events.ack": 300, "counters.crash_prefixes_examined": 5000, "events.set_fail": 5}
+    floors = {"counters.cli_command_lines": 30, "counters.api_receivers_built": 30, "events.ack": 300, "counters.crash_prefixes_examined": 5000, "events.set_fail": 5}
     quick_cases = 3000
     thorough_cases = 50000
     assumptions = [
@@ -571,10 +621,16 @@ def gen_c03_spec(rng: random.Random, maxn: int = 40) -> Dict[str, Any]:
               "raise_exc": rng.choice(["HookBoom", "HookBoom", "CancelledError"])}
           for h, toks in hook_raise.items() if toks}
     spec: Dict[str, Any] = {
-        "cfg": {"A": A, "P": rng.choice([0, 0, 1, 2, 3])}, "msgs": msgs, "end_stream": True,
+        "cfg": {"A": A, "P": rng.choice([0, 0, 1, 2, 3]), "W": rng.choice([None, None, None, 0.3, 2.0])}, "msgs": msgs, "end_stream": True,
         "backend": {"lat": rng.choice([0, "y", 0.01]), "fail": fail, "fail_cancel": fail_cancel},
         "_probe_toks": probe_toks,
     }
+    if rng.random() < 0.2:
+        # some task functions wait for a reply held only by a weak registry while the garbage collector runs
+        for m in msgs[:n]:
+            if m.get("kind", "valid") == "valid" and m["task"] == "t_async" and m["beh"].get("dur") and m.get("timeout") is None \
+                    and m.get("timeout_raw") is None and rng.random() < 0.5:
+                m["beh"]["dur"] = [rng.choice(["w0.05", "w0.3", "w1.0"])]
     if mw:
         spec["mws"] = [mw]
     if not A or A < 0:
@@ -588,6 +644,7 @@ def gen_c03_spec(rng: random.Random, maxn: int = 40) -> Dict[str, Any]:
 
 class C03(WorkerCheck):
     pid = "C03"
+    wiring_fields = ["max_async_tasks"]
     rule = ("Scenario = history of 5-40 messages with outcomes {ok, raise, timeout, no-result, malformed, unknown "
             "task, backend failure, raising pre_execute/post_execute/on_error/post_save hook} (one outcome made "
             "dominant so it occurs >= limit times; timeout labels as number or string, zero, or not a number), limit A in "
@@ -596,7 +653,7 @@ class C03(WorkerCheck):
             "event; A=1 => disjoint and in delivery order; probe reaches exactly A concurrent tasks; every valid "
             "message executes; listen() returns (no stall/deadlock). Non-trivial: history contains >=1 non-ok "
             "outcome; distinct = distinct (kind, delivery) sequences.")
-    floors = {"events.cb_enter": 2000, "counters.probe_saturated": 50, "events.set_fail": 20}
+    floors = {"counters.cli_command_lines": 30, "counters.api_receivers_built": 30, "events.cb_enter": 2000, "counters.probe_saturated": 50, "events.set_fail": 20}
     quick_cases = 2000
     thorough_cases = 40000
     assumptions = ["a failing hook means the hook raises an Exception subclass"]
@@ -685,12 +742,13 @@ def gen_c04_spec(rng: random.Random, A: int, P: int) -> Dict[str, Any]:
 
 class C04(WorkerCheck):
     pid = "C04"
+    wiring_fields = ["max_async_tasks", "max_prefetch"]
     rule = ("All 20 (A in 1..4) x (P in 0..4) pairs in every shard; backlog 2(A+P+1)+k messages ready up-front, in "
             "bursts or trickling, durations from one yield to never-ending, ackable with when_saved and slow "
             "backend/ack. Oracle after every event: #yielded - #finished <= A+P+1. Tightness is not demanded; the "
             "maximum seen per pair is reported. Non-trivial: the backlog exceeded the bound (worker saturated); "
             "distinct = distinct (kind, delivery) sequences.")
-    floors = {"events.yield": 1000, "counters.pairs_covered": 20}
+    floors = {"counters.cli_command_lines": 30, "counters.api_receivers_built": 30, "events.yield": 1000, "counters.pairs_covered": 20}
     quick_cases = 1600
     thorough_cases = 30000
     assumptions = ["a message is finished when Receiver.callback() has returned, its task function body has ended and its acknowledgement has completed (an ackable well-formed message whose processing did not abort is unfinished until then)"]
@@ -717,6 +775,7 @@ class C04(WorkerCheck):
 
     def post_merge(self, merged: Dict[str, Any]) -> None:
         merged["counters"]["pairs_covered"] = sum(1 for k in merged["counters"] if k.startswith("max_A"))
+        WorkerCheck.post_merge(self, merged)
 
     def selftest(self) -> List[str]:
         class _SC:
@@ -777,6 +836,7 @@ def gen_c05_spec(rng: random.Random, maxn: int = 16) -> Dict[str, Any]:
 
 class C05(WorkerCheck):
     pid = "C05"
+    wiring_fields = ["max_tasks_to_execute", "wait_tasks_timeout"]
     rule = ("Scenario = message script (short/long/never-ending tasks, slow acks/backend) x (A,P,N,"
             "wait_tasks_timeout) x shutdown cause (finish event at a random/event-aligned instant, stream end, "
             "max-tasks recycle); sweep cases re-run one script with the stop at every observed event instant "
@@ -785,7 +845,7 @@ class C05(WorkerCheck):
             "completion, request)+1 s (W None) or <= min(last completion, T_ref+W)+1 s where T_ref is the latest "
             "defensible start of the timeout; N => exactly N messages taken. Non-trivial: a shutdown request was "
             "observed while >=1 accepted message was unfinished; distinct = distinct (kind, delivery) sequences.")
-    floors = {"events.stop": 200, "events.listen_returned": 300, "counters.stop_instants": 20}
+    floors = {"counters.cli_command_lines": 30, "counters.api_receivers_built": 30, "events.stop": 200, "events.listen_returned": 300, "counters.stop_instants": 20}
     quick_cases = 3000
     thorough_cases = 50000
     thorough_time = 420.0
@@ -1243,6 +1303,7 @@ def gen_c12_spec(rng: random.Random, depth: int) -> Dict[str, Any]:
 
 class C12(WorkerCheck):
     pid = "C12"
+    wiring_fields = ["propagate_exceptions"]
     rule = ("Scenario = generated task with a random dependency DAG up to depth 3 mixing generator, async "
             "generator, @contextmanager, @asynccontextmanager and plain dependencies (cached and use_cache=False, "
             "shared nodes), outcomes {return, raise, timeout, no-result, dependency raising during resolution}, "
@@ -1251,7 +1312,7 @@ class C12(WorkerCheck):
             "task end / failing dependency and before on_error/post_execute, set_result and any post-execution "
             "ack; exception seen by the dependency iff (failed and propagate). Non-trivial: >=2 yielding "
             "dependencies opened in one execution; distinct = distinct (kind, dep, delivery) sequences.")
-    floors = {"counters.executions_checked": 800, "events.dep_close": 2000, "counters.uncached_graphs": 100}
+    floors = {"counters.cli_command_lines": 30, "counters.api_receivers_built": 30, "counters.executions_checked": 800, "events.dep_close": 2000, "counters.uncached_graphs": 100}
     quick_cases = 2500
     thorough_cases = 40000
     assumptions = ["taskiq_dependencies 1.5.7 as installed in /venv is part of the system under observation"]
